@@ -64,6 +64,10 @@ def must_reject(s, t):
     """s: type tuple or literal tuple.  Returns True / False (must be value preserving if accepted; acceptance not demanded)"""
     if s[0] in ("Null", "Full"):
         return False
+    if s[0] == "Integer":
+        # run-time integer (Signal[int]): representability is not statically decidable; the statement lists integer
+        # LITERALS only.  Accepted designs are checked for well-typed VHDL and value preservation of in-range values.
+        return False
     if s[0] in ("True", "False"):
         # Python bool literals are the integers 1 / 0: always representable in numeric targets; other targets are not
         # covered by the statement
@@ -96,6 +100,8 @@ def must_reject(s, t):
 def src_values(s):
     if s[0] in ("Bit", "bool"):
         return [0, 1]
+    if s[0] == "Integer":
+        return list(range(8))  # raw bits of the Signed[3] port feeding the integer signal: -4..3
     if is_vec(s):
         return list(range(1 << s[1]))
     return [None]
@@ -123,6 +129,13 @@ def expected(s, raw, t):
             return v if 0 <= v <= mt else None
         if t[0] == "Signed":
             return v & mt if -(1 << (wt - 1)) <= v < (1 << (wt - 1)) else None
+        return "open"
+    if s[0] == "Integer":
+        num = signed_of(raw, 3)
+        if t[0] == "Unsigned":
+            return num if 0 <= num <= mt else "open"
+        if t[0] == "Signed":
+            return num & mt if -(1 << (wt - 1)) <= num < (1 << (wt - 1)) else "open"
         return "open"
     if not is_vec(s) and not is_vec(t):
         return raw
@@ -155,7 +168,11 @@ def render(s, t, form):
         L += ["class Sub(Entity):", f"    x = Port.input({T})", f"    y = Port.output({T})", "    def architecture(self):",
               "        @std.concurrent", "        def logic():", "            self.y <<= self.x", ""]
     L += ["class T(Entity):", "    clk = Port.input(Bit)", "    c = Port.input(Bit)"]
-    if S is None:
+    if s == ("Integer",):
+        L.append("    srci = Port.input(Signed[3])")
+        if not form.startswith("pdefault"):
+            src = "isrc"
+    elif S is None:
         L.append(f"    src = Port.input({tsrc(s)})")
     L.append(f"    alt = Port.input({T})")
     if form in ("merge2", "ret2"):
@@ -175,6 +192,8 @@ def render(s, t, form):
     else:
         L.append(f"    tgt = Port.output({T}{dflt})")
     L.append("    def architecture(self):")
+    if s == ("Integer",):
+        L += ["        isrc = Signal[int](0, name='isrc')", "        @std.concurrent", "        def feed():", "            isrc.next = self.srci"]
     seq = "        @std.sequential(std.Clock(self.clk))"
     con = "        @std.concurrent"
     if form == "conc":
@@ -286,13 +305,17 @@ def analyse(s, t, form):
     is_lit = s[0] in ("int", "Null", "Full", "True", "False")
     sim = d.sim(init=dict(clk=0, c=1))
     for raw in src_values(s):
+        if s == ("Integer",) and expected(s, raw, t) == "open":
+            continue  # out-of-range run-time integer: numeric_std reports a range error, nothing is claimed
         try:
             kv = {"c": 1, "alt": 0}
             if form in ("merge2", "ret2"):
                 kv = {"c": 0, "alt": 0, "nar": 0}
             if form == "pdefault":
                 kv = {"c": 0, "alt": 0}
-            if not is_lit:
+            if s == ("Integer",):
+                kv["srci"] = raw
+            elif not is_lit:
                 kv["src"] = raw
             sim.set_many(kv)
             if clocked:
@@ -358,7 +381,7 @@ def main(run: Run):
     maxw = 5 if run.thorough else 3
     T = types(maxw)
     tasks = []
-    for s in T:
+    for s in T + [("Integer",)]:
         for t in T:
             for f in FORMS:
                 if applicable(s, t, f):
